@@ -104,8 +104,13 @@ HARNESS(h_ringbuffer)
 #ifndef SVMODE
 #define SVMODE Normal
 #endif
-typedef tlx::SimpleVector<Tracked, tlx::SimpleVectorMode::SVMODE> SV;
 enum { SV_NORMAL = (int)tlx::SimpleVectorMode::SVMODE == (int)tlx::SimpleVectorMode::Normal };
+// the NoInit* modes never construct elements (documented): they are exercised with a trivial element type and checked for
+// sizes, storage hand-over and double frees / leaks only; the lifetime ledger applies to the default mode
+struct Pod { uint8_t val; uint8_t magic; bool ok(uint8_t v) const { return val == v; } Pod() = default; explicit Pod(uint8_t v) : val(v), magic(MAGIC) {} };
+#include <type_traits>
+typedef std::conditional<SV_NORMAL, Tracked, Pod>::type SVElem;
+typedef tlx::SimpleVector<SVElem, tlx::SimpleVectorMode::SVMODE> SV;
 HARNESS(h_simplevector)
 {
     unsigned n0 = nondet_below(4);
@@ -115,7 +120,7 @@ HARNESS(h_simplevector)
     for (unsigned step = 0; step < H; ++step) {
         unsigned op = nondet_below(7); uint8_t x = nondet_u8(); OBS(op);
         switch (op) {
-        case 0: { unsigned m_ = nondet_below(4); if (SV_NORMAL || na == 0) {
+        case 0: { unsigned m_ = nondet_below(4); {
                     uint8_t keep[4]; for (unsigned i = 0; i < 4; ++i) if (i < na) keep[i] = (*a)[i].val;
                     a->resize(m_);
                     if (SV_NORMAL) for (unsigned i = 0; i < 4; ++i) if (i < na && i < m_) CHECK((*a)[i].ok(keep[i]), "resize keeps the common prefix");
@@ -124,7 +129,7 @@ HARNESS(h_simplevector)
         case 2: { *b = std::move(*a); CHECK(a->size() == 0 && b->size() == na, "move assignment transfers the elements"); nb = na; na = 0; } break;
         case 3: { a->swap(*b); unsigned t = na; na = nb; nb = t; } break;
         case 4: { a->destroy(); na = 0; CHECK(a->size() == 0, "destroy empties the vector"); } break;
-        case 5: if (SV_NORMAL) { Tracked t(x); a->fill(t); for (unsigned i = 0; i < 4; ++i) if (i < na) CHECK((*a)[i].ok(x), "fill assigns every element"); } break;
+        case 5: if (SV_NORMAL) { SVElem t(x); a->fill(t); for (unsigned i = 0; i < 4; ++i) if (i < na) CHECK((*a)[i].ok(x), "fill assigns every element"); } break;
         default: { SV& self = *a; *a = std::move(self); } break;
         }
         CHECK(a->size() == na && b->size() == nb, "size() tracks the model");
